@@ -34,25 +34,40 @@ theorem and255 (x : UInt32) : (x &&& (255 : UInt32)).toNat = x.toNat % 256 := by
   rw [UInt32.toNat_and]
   exact Nat.and_two_pow_sub_one_eq_mod x.toNat 8
 
+theorem and255' (x : UInt32) : ((255 : UInt32) &&& x).toNat = x.toNat % 256 := by
+  rw [UInt32.toNat_and, Nat.and_comm]
+  exact Nat.and_two_pow_sub_one_eq_mod x.toNat 8
+
 /-- The arithmetic shift of the signed value agrees, on the byte that is kept, with
 the logical shift of the pattern (the sign only fills bits above it). -/
-theorem sar32_toNat_mod (x : UInt32) (k : Nat) (hk : k = 8 ∨ k = 16 ∨ k = 24) :
+theorem sar32_toNat_mod (x : UInt32) (k : Nat) (hk : k = 0 ∨ k = 8 ∨ k = 16 ∨ k = 24) :
     (PrimOps.sar32 x k).toNat % 256 = x.toNat / 2 ^ k % 256 := by
   have h := x.toNat_lt
   unfold PrimOps.sar32 PrimOps.ofS32 PrimOps.s32
-  rcases hk with rfl | rfl | rfl <;> simp [UInt32.toNat_ofNat'] <;> split <;> omega
+  rcases hk with rfl | rfl | rfl | rfl <;> simp [UInt32.toNat_ofNat'] <;> split <;> omega
 
-/-- `static_cast<std::byte>(value & 0xFF)`. -/
-theorem byte0 (x : UInt32) : PrimOps.byte_of_i32 (x &&& (255 : UInt32)) = (x.toNat % 256).toUInt8 := by
-  apply UInt8.toNat_inj.mp
-  simp only [PrimOps.byte_of_i32, UInt32.toNat_toUInt8, and255, Nat.toUInt8, UInt8.toNat_ofNat']
+theorem shr32_toNat (x : UInt32) (k : Nat) (hk : k = 0 ∨ k = 8 ∨ k = 16 ∨ k = 24) :
+    (PrimOps.shr32 x k).toNat = x.toNat / 2 ^ k := by
+  unfold PrimOps.shr32
+  rcases hk with rfl | rfl | rfl | rfl <;> simp [UInt32.toNat_shiftRight, Nat.shiftRight_eq_div_pow]
 
-/-- `static_cast<std::byte>((value >> k) & 0xFF)`. -/
-theorem byteK (x : UInt32) (k : Nat) (hk : k = 8 ∨ k = 16 ∨ k = 24) :
-    PrimOps.byte_of_i32 (PrimOps.sar32 x k &&& (255 : UInt32)) = (x.toNat / 2 ^ k % 256).toUInt8 := by
+/-- `static_cast<std::byte>(e)` keeps the low byte of the pattern. -/
+theorem byte_of_i32_eq (m : UInt32) : PrimOps.byte_of_i32 m = (m.toNat % 256).toUInt8 := by
   apply UInt8.toNat_inj.mp
-  simp only [PrimOps.byte_of_i32, UInt32.toNat_toUInt8, and255, Nat.toUInt8, UInt8.toNat_ofNat']
-  rw [sar32_toNat_mod x k hk]
+  simp only [PrimOps.byte_of_i32, UInt32.toNat_toUInt8, Nat.toUInt8, UInt8.toNat_ofNat', Nat.reducePow, Nat.mod_mod]
+
+theorem byte_of_u32_eq (m : UInt32) : PrimOps.byte_of_u32 m = (m.toNat % 256).toUInt8 := byte_of_i32_eq m
+
+theorem u32_of_i32_eq (m : UInt32) : PrimOps.u32_of_i32 m = m := rfl
+theorem i32_of_u32_eq (m : UInt32) : PrimOps.i32_of_u32 m = m := rfl
+
+/-- Normal form of one stored byte: `static_cast<std::byte>((value >> k) & 0xFF)` and its
+behaviour-preserving variants (mask on either side or absent, shift done on `uint32_t`). -/
+macro "prim_enc32" x:term : tactic =>
+  `(tactic| simp only [List.nil_append, byte_of_i32_eq, byte_of_u32_eq, u32_of_i32_eq, i32_of_u32_eq, and255, and255',
+      Nat.mod_mod, sar32_toNat_mod $x 0 (by simp), sar32_toNat_mod $x 8 (by simp), sar32_toNat_mod $x 16 (by simp),
+      sar32_toNat_mod $x 24 (by simp), shr32_toNat $x 0 (by simp), shr32_toNat $x 8 (by simp),
+      shr32_toNat $x 16 (by simp), shr32_toNat $x 24 (by simp), Nat.reducePow, Nat.div_one])
 
 /-- `static_cast<uint8_t>(ptr[i]) << k`, computed in `int`. -/
 theorem shl32_u8 (b : UInt8) (k : Nat) (hk : k = 8 ∨ k = 16 ∨ k = 24) :
@@ -108,18 +123,19 @@ theorem encode_uint8_eq (v : UInt8) : encode_uint8 v = Codec.u8.enc v := rfl
 /-! ### 32 bits -/
 
 theorem encode_int32_be_eq (x : UInt32) : encode_int32_be x = Prim.encU32BE x := by
-  simp only [encode_int32_be, Prim.encU32BE, List.nil_append, byte0, byteK x 8 (by simp),
-    byteK x 16 (by simp), byteK x 24 (by simp)]
+  simp only [encode_int32_be, Prim.encU32BE]
+  prim_enc32 x
 
 theorem encode_int32_le_eq (x : UInt32) : encode_int32_le x = Prim.encU32LE x := by
-  simp only [encode_int32_le, Prim.encU32LE, List.nil_append, byte0, byteK x 8 (by simp),
-    byteK x 16 (by simp), byteK x 24 (by simp)]
+  simp only [encode_int32_le, Prim.encU32LE]
+  prim_enc32 x
 
-theorem decode_int32_be_cons (a b c d : UInt8) (r : Bytes) :
-    decode_int32_be (a :: b :: c :: d :: r) = some (Prim.decU32BE a b c d, r) := by
-  simp only [decode_int32_be, PrimOps.rd, PrimOps.adv, List.getElem?_cons_zero, List.getElem?_cons_succ,
-    Option.bind_eq_bind, Option.bind_some, Option.pure_def, List.length_cons, List.drop_succ_cons, List.drop_zero,
-    Nat.le_add_left, if_true, Option.some.injEq, Prod.mk.injEq, and_true]
+/-- The four promoted bytes OR-ed together at bit offsets 24, 16, 8, 0 (canonical order). -/
+theorem or4 (a b c d : UInt8) :
+    (((PrimOps.shl32 (PrimOps.i32_of_u8 (PrimOps.u8_of_byte a)) 24 |||
+        PrimOps.shl32 (PrimOps.i32_of_u8 (PrimOps.u8_of_byte b)) 16) |||
+        PrimOps.shl32 (PrimOps.i32_of_u8 (PrimOps.u8_of_byte c)) 8) |||
+        PrimOps.i32_of_u8 (PrimOps.u8_of_byte d)) = Prim.decU32BE a b c d := by
   apply UInt32.toNat_inj.mp
   have ha := a.toNat_lt; have hb := b.toNat_lt; have hc := c.toNat_lt; have hd := d.toNat_lt
   simp only [UInt32.toNat_or, shl32_u8 _ 8 (by simp), shl32_u8 _ 16 (by simp), shl32_u8 _ 24 (by simp), i32_u8,
@@ -128,18 +144,32 @@ theorem decode_int32_be_cons (a b c d : UInt8) (r : Bytes) :
     or_eq_add 16 _ (c.toNat * 2 ^ 8) (by omega) (by omega), or_eq_add 8 _ d.toNat (by omega) (by omega)]
   omega
 
+/-- Equality up to associativity/commutativity of `|||`, with the four shifted bytes made opaque first. -/
+macro "or4_ac" a:term:max b:term:max c:term:max d:term:max : tactic =>
+  `(tactic| (generalize PrimOps.shl32 (PrimOps.i32_of_u8 (PrimOps.u8_of_byte $a)) 24 = A
+             generalize PrimOps.shl32 (PrimOps.i32_of_u8 (PrimOps.u8_of_byte $b)) 16 = B
+             generalize PrimOps.shl32 (PrimOps.i32_of_u8 (PrimOps.u8_of_byte $c)) 8 = C
+             generalize PrimOps.i32_of_u8 (PrimOps.u8_of_byte $d) = D
+             ac_rfl))
+
+/-- Runs the generated decoder on four available bytes: what is left is the equation for the value. -/
+macro "prim_dec32_run" f:ident : tactic =>
+  `(tactic| simp only [$f:ident, PrimOps.rd, PrimOps.adv, List.getElem?_cons_zero, List.getElem?_cons_succ,
+      Option.bind_eq_bind, Option.bind_some, Option.pure_def, List.length_cons, List.drop_succ_cons, List.drop_zero,
+      Nat.le_add_left, if_true, Option.some.injEq, Prod.mk.injEq, and_true])
+
+theorem decode_int32_be_cons (a b c d : UInt8) (r : Bytes) :
+    decode_int32_be (a :: b :: c :: d :: r) = some (Prim.decU32BE a b c d, r) := by
+  prim_dec32_run decode_int32_be
+  -- `|` is associative and commutative: the operand order of the C++ does not matter
+  refine Eq.trans ?_ (or4 a b c d)
+  or4_ac a b c d
+
 theorem decode_int32_le_cons (a b c d : UInt8) (r : Bytes) :
     decode_int32_le (a :: b :: c :: d :: r) = some (Prim.decU32LE a b c d, r) := by
-  simp only [decode_int32_le, PrimOps.rd, PrimOps.adv, List.getElem?_cons_zero, List.getElem?_cons_succ,
-    Option.bind_eq_bind, Option.bind_some, Option.pure_def, List.length_cons, List.drop_succ_cons, List.drop_zero,
-    Nat.le_add_left, if_true, Option.some.injEq, Prod.mk.injEq, and_true]
-  apply UInt32.toNat_inj.mp
-  have ha := a.toNat_lt; have hb := b.toNat_lt; have hc := c.toNat_lt; have hd := d.toNat_lt
-  simp only [UInt32.toNat_or, shl32_u8 _ 8 (by simp), shl32_u8 _ 16 (by simp), shl32_u8 _ 24 (by simp), i32_u8,
-    Prim.decU32LE, Prim.decU32BE, UInt32.toNat_ofNat']
-  rw [or_eq_add' 8 a.toNat (b.toNat * 2 ^ 8) (by omega) (by omega),
-    or_eq_add' 16 _ (c.toNat * 2 ^ 16) (by omega) (by omega), or_eq_add' 24 _ (d.toNat * 2 ^ 24) (by omega) (by omega)]
-  omega
+  prim_dec32_run decode_int32_le
+  refine Eq.trans ?_ (or4 d c b a)
+  or4_ac d c b a
 
 /-- Fewer than four bytes: `ptr[k]` leaves the buffer. -/
 theorem decode_int32_be_short (bs : Bytes) (h : bs.length < 4) : decode_int32_be bs = none := by
@@ -214,7 +244,7 @@ theorem decode_int64_be_eq (bs : Bytes) : decode_int64_be bs = Codec.u64be.dec b
     | none => rfl
     | some p2 =>
       obtain ⟨e2, r2⟩ := p2
-      simp only [Option.bind_some, join_hi_lo]
+      simp only [Option.bind_some, join_hi_lo, join_lo_hi]
 
 theorem decode_int64_le_eq (bs : Bytes) : decode_int64_le bs = Codec.u64le.dec bs := by
   simp only [decode_int64_le, decode_int32_le_eq, Codec.u64le, Codec.map, Codec.pair, Option.bind_eq_bind,
@@ -228,7 +258,7 @@ theorem decode_int64_le_eq (bs : Bytes) : decode_int64_le bs = Codec.u64le.dec b
     | none => rfl
     | some p2 =>
       obtain ⟨e2, r2⟩ := p2
-      simp only [Option.bind_some, join_lo_hi]
+      simp only [Option.bind_some, join_lo_hi, join_hi_lo]
 
 theorem decode_int64_be_cons (a b c d e f g h : UInt8) (r : Bytes) :
     decode_int64_be (a :: b :: c :: d :: e :: f :: g :: h :: r) = some (Prim.decU64BE a b c d e f g h, r) := by
